@@ -173,3 +173,117 @@ Proof.
     + rewrite getp_set_neq in Gq by exact Hn. rewrite Gp in Gq. inversion Gq; subst q.
       apply (untouched_forward p b0 b2 (mi_props _ HI _ _ Gp) Rp B02).
 Qed.
+
+(* ---------------------------------------------------------------------------------------- *)
+(* C03: a latched (stored) Passed / Rejected always agrees with the rule on the present tally *)
+Definition expired_at (p : proposal) (b : block) : bool := is_expired (p_expires p) b.
+Definition latched_ok (p : proposal) (b : block) : Prop :=
+  match p_status p with
+  | Passed => pass_fn (p_threshold p) (p_total p) (p_votes p) (expired_at p b) = true
+  | Rejected => pass_fn (p_threshold p) (p_total p) (p_votes p) (expired_at p b) = false /\
+                (expired_at p b = true \/ rej_fn (p_threshold p) (p_total p) (p_votes p) false = true)
+  | _ => True
+  end.
+
+Lemma status_fn_passed th T v e : status_fn Open th T v e = Passed -> pass_fn th T v e = true.
+Proof. unfold status_fn. destruct (pass_fn th T v e); [reflexivity|]. destruct (_ || _); discriminate. Qed.
+Lemma status_fn_rejected th T v e : status_fn Open th T v e = Rejected ->
+  pass_fn th T v e = false /\ (e = true \/ rej_fn th T v false = true \/ rej_fn th T v e = true).
+Proof.
+  unfold status_fn. destruct (pass_fn th T v e); [discriminate|]. destruct (rej_fn th T v e || e) eqn:R; [|discriminate].
+  intros _. split; [reflexivity|]. apply orb_true_iff in R. destruct R as [R|R]; [right; right; exact R|left; exact R].
+Qed.
+
+(* time passing keeps a latched status justified *)
+Lemma latched_time p b b' : prange p -> block_le b b' -> latched_ok p b -> latched_ok p b'.
+Proof.
+  intros Rp B L. unfold latched_ok, expired_at in *. destruct (p_status p); auto.
+  - destruct L as [L1 L2]. destruct (is_expired (p_expires p) b) eqn:E.
+    + rewrite (expired_mono _ _ _ B E). split; [exact L1|left; reflexivity].
+    + destruct L2 as [L2|L2]; [discriminate|].
+      split; [|right; exact L2].
+      apply (early_reject_sound _ _ _ _ _ Rp (completes_refl _ _ (proj1 (proj2 Rp))) L2).
+  - destruct (is_expired (p_expires p) b) eqn:E.
+    + rewrite (expired_mono _ _ _ B E). exact L.
+    + apply (early_pass_sound _ _ _ _ _ Rp (completes_refl _ _ (proj1 (proj2 Rp))) L).
+Qed.
+
+(* every accepted call made at block b keeps (or establishes) it, for every proposal, at block b *)
+Theorem latched_step ms gv b sender o ms' out id q :
+  MInv ms -> step ms gv b sender o = Ok (ms', out) ->
+  getp ms' id = Some q -> prange q ->
+  (forall j (p : proposal), getp ms j = Some p -> prange p /\ latched_ok p b) ->
+  latched_ok q b.
+Proof.
+  intros HI Hst Gq Rq Hall.
+  destruct o as [title msgs latest funds|vid v|xid|cid]; cbn [step] in Hst.
+  - destruct (propose_spec _ _ _ _ _ _ _ _ _ _ Hst) as (power & mx & ex & st0 & nid & _ & _ & _ & Hi & _ & Hz).
+    cbv zeta in Hz. destruct Hz as (Est & _ & ->).
+    unfold getp in Gq. cbn [proposals] in Gq. destruct (N.eq_dec id nid) as [->|Hn].
+    + rewrite get_set_eq in Gq. inversion Gq; subst q; clear Gq.
+      unfold prange in Rq. cbn [with_status p_threshold p_total p_votes] in Rq.
+      rewrite (prop_status_fn _ b) in Est by exact Rq. cbn [p_status p_threshold p_total p_votes p_expires] in Est.
+      injection Est as E1. subst st0. unfold latched_ok, expired_at. cbn [with_status p_status p_threshold p_total p_votes p_expires].
+      match goal with |- context [if pass_fn ?a ?b0 ?c ?d then _ else _] => destruct (pass_fn a b0 c d) eqn:P end; [reflexivity|].
+      match goal with |- context [if ?r || ?e then _ else _] => destruct r eqn:R; destruct e eqn:E end; cbn [orb]; auto.
+    + rewrite get_set_neq in Gq by exact Hn. fold (getp ms id) in Gq. apply (Hall _ _ Gq).
+  - destruct (vote_spec _ _ _ _ _ _ _ _ Hst) as (p0 & w & vs & st0 & Gp0 & _ & _ & Hv & Hx & _ & Ha & _ & Hz).
+    cbv zeta in Hz. destruct Hz as (Est & ->).
+    destruct (N.eq_dec id vid) as [->|Hn].
+    + rewrite getp_set_eq in Gq. inversion Gq; subst q; clear Gq.
+      destruct (Hall _ _ Gp0) as [Rp L]. unfold prange in Rq. cbn [with_status p_threshold p_total p_votes] in Rq.
+      assert (Hc: completes (p_total p0) (p_votes p0) vs) by (eapply add_vote_completes; [exact Ha|apply Rq]).
+      rewrite (prop_status_fn _ b) in Est by exact Rq. cbn [p_status p_threshold p_total p_votes p_expires] in Est.
+      injection Est as E1. subst st0. unfold latched_ok, expired_at in *.
+      cbn [with_status p_status p_threshold p_total p_votes p_expires]. rewrite Hx in *.
+      destruct (p_status p0) eqn:Sp; cbn [status_fn].
+      * exact I.
+      * match goal with |- context [if pass_fn ?a ?b0 ?c ?d then _ else _] => destruct (pass_fn a b0 c d) eqn:P end; [reflexivity|].
+        match goal with |- context [if ?r || false then _ else _] => destruct r eqn:R end; cbn [orb]; auto.
+      * destruct L as [L1 [L2|L2]]; [discriminate|]. split.
+        -- apply (early_reject_sound _ _ _ _ _ Rp Hc L2).
+        -- right. apply (rej_mono _ _ _ _ Rp Hc L2).
+      * apply (early_pass_sound _ _ _ _ _ Rp Hc L).
+      * exact I.
+    + rewrite getp_set_neq in Gq by exact Hn. apply (Hall _ _ Gq).
+  - destruct (execute_spec _ _ _ _ _ _ _ Hst) as (p0 & Gp0 & _ & _ & _ & ->).
+    destruct (N.eq_dec id xid) as [->|Hn].
+    + rewrite getp_set_eq in Gq. inversion Gq; subst q. exact I.
+    + rewrite getp_set_neq in Gq by exact Hn. apply (Hall _ _ Gq).
+  - destruct (close_spec _ _ _ _ _ Hst) as (p0 & st0 & Gp0 & Ho & Ep & Hnp & Hx & _ & ->).
+    destruct (N.eq_dec id cid) as [->|Hn].
+    + rewrite getp_set_eq in Gq. inversion Gq; subst q; clear Gq. destruct (Hall _ _ Gp0) as [Rp _].
+      rewrite (prop_status_fn p0 b Rp) in Ep. injection Ep as E1.
+      unfold latched_ok, expired_at. cbn [with_status p_status p_threshold p_total p_votes p_expires]. rewrite Hx.
+      split; [|left; reflexivity].
+      destruct Ho as [Sp|Sp]; rewrite Sp in E1; cbn [status_fn] in E1.
+      * destruct (pass_fn _ _ _ true) eqn:P; [|reflexivity]. exfalso. apply Hnp. rewrite <- E1. rewrite Hx. rewrite P. reflexivity.
+      * exfalso. apply (pi_not_pending _ (mi_props _ HI _ _ Gp0)). exact Sp.
+    + rewrite getp_set_neq in Gq by exact Hn. apply (Hall _ _ Gq).
+Qed.
+
+(* what the reported status means, given the latch invariant: Passed iff the rule passes on the
+   present tally and expiry state (unless already executed); Rejected only if it does not pass and is
+   expired or can no longer pass; Open otherwise *)
+Theorem status_is_outcome p b s : prange p -> latched_ok p b -> p_status p <> Pending -> prop_status p b = Some s ->
+  let ps := pass_fn (p_threshold p) (p_total p) (p_votes p) (expired_at p b) in
+  match s with
+  | Passed => ps = true
+  | Rejected => ps = false /\ (expired_at p b = true \/ rej_fn (p_threshold p) (p_total p) (p_votes p) false = true \/
+                               rej_fn (p_threshold p) (p_total p) (p_votes p) (expired_at p b) = true)
+  | Open => ps = false /\ expired_at p b = false
+  | Executed => p_status p = Executed
+  | Pending => False
+  end.
+Proof.
+  intros Rp L Hp Es. rewrite (prop_status_fn p b Rp) in Es. injection Es as E. cbv zeta.
+  unfold latched_ok, expired_at in *. destruct (p_status p) eqn:Sp; cbn [status_fn] in E |- *.
+  - exfalso. apply Hp. reflexivity.
+  - destruct (pass_fn _ _ _ _) eqn:P; [subst s; reflexivity|].
+    destruct (rej_fn _ _ _ _ || is_expired (p_expires p) b) eqn:R; subst s.
+    + split; [reflexivity|]. apply orb_true_iff in R. destruct R as [R|R]; [right; right; exact R|left; exact R].
+    + apply orb_false_iff in R. split; [reflexivity|apply R].
+  - subst s. destruct L as [L1 L2]. split; [exact L1|]. destruct L2; auto.
+  - subst s. exact L.
+  - subst s. reflexivity.
+Qed.
